@@ -94,6 +94,9 @@ m('C18', 'lp_solver', '        self.prob = LpProblem("Student-Project-Allocator"
 m('C01', 'model', "                self.project_lists[st_pr_pair.project_index].append(st_pr_pair)\n", "                self.project_lists[st_pr_pair.project_index].append(st_pr_pair)\n                self.project_lists[st_pr_pair.project_index].append(st_pr_pair)\n", 'a pair listed twice under its project: same element set, double weight in the capacity constraint')
 m('C01', 'model', "                if pair.lp_var.varValue:\n                    pair_assignments.append(pair)\n        return pair_assignments", "                if pair.lp_var.varValue:\n                    pair_assignments.append(pair_row[0])\n        return pair_assignments", 'the wrong pair of the row is reported')
 m('C10', 'model', "                (self.lecturer_lists[st_pr_pair.lecturer_index]\n                    .append(st_pr_pair))", "                (self.lecturer_lists[st_pr_pair.lecturer_index]\n                    .append(st_pr_pair))\n                if st_pr_pair.rank_student == 1: self.lecturer_lists[st_pr_pair.lecturer_index].append(st_pr_pair)", 'first choices listed twice under their lecturer')
+m('C02', 'lp_solver', "            upBound = sum(self.model.lec_upper_quotas),", "            upBound = self.model.get_max_lec_upper_quota(),", 'defect 2 again: lsb bound too small')
+m('C02', 'lp_solver', "            upBound = self.model.get_max_lec_upper_quota(),", "            upBound = self.model.get_max_lec_upper_quota() - 1,", 'lmb bound too small')
+m('C02', 'lp_solver', "        self.add_constraints(\n            self.instance_options, \n            self.extra_constraints, \n            self.optimisation_options)\n\n        self.run_optimisations(self.optimisation_options)", "        self.run_optimisations(self.optimisation_options)\n        self.add_constraints(\n            self.instance_options, \n            self.extra_constraints, \n            self.optimisation_options)", 'criteria run before the matching constraints exist')
 # ---- C18
 m('C18', 'model', "        results += self.info_string + '\\n'", "        results += self.info_string + '\\n'\n        self.info_string = self.info_string + ' '", 'getter appends to a field')
 m('C18', 'model', "        max_rank = self._get_max_rank()\n        rank_allocations = [0] * max_rank", "        max_rank = self._get_max_rank()\n        self.cached_max_rank = max_rank\n        rank_allocations = [0] * max_rank", 'getter caches into a new field')
